@@ -449,7 +449,67 @@ func checkC10(c *Ctx) error {
 	})
 	c.Set("fault_classes", len(cases))
 	c.Set("flag_sets", len(flagSets))
+	c10Stdout(c)
 	return c10Strace(c)
+}
+
+// c10Stdout: the report cannot be printed (standard output on /dev/full: every write fails with ENOSPC; a descriptor opened
+// read-only). The statement does not list this failure and the tool cannot print its error list, so only the two implications that
+// do not need a report are judged: status 0 iff the complete source is at -o, and a failing run leaves -o exactly as it was. (The
+// unchanged tool panics in its printer and exits 2 before any step runs - noted in DESIGN, not judged.)
+func c10Stdout(c *Ctx) {
+	w := c.W
+	valid := "meta:\n  pkg: gen\nparameters:\n  a: 1\nservices:\n  s:\n    value: \"Global\"\n"
+	bad := "parameters:\n  a: \"%b%\"\n  b: \"%a%\"\n"
+	k := 0
+	for _, stdout := range []string{"/dev/full", "read-only"} {
+		for yi, y := range []string{valid, bad} {
+			for _, flags := range [][]string{{}, {"--quiet"}, {"--stub"}, {"--ignore-missing-params"}} {
+				for _, pre := range []string{"absent", "sentinel"} {
+					k++
+					dir := w.TempDir("c10s")
+					_ = work.WriteFile(filepath.Join(dir, "a.yaml"), []byte(y))
+					out := filepath.Join(dir, "out.go")
+					if pre == "sentinel" {
+						_ = work.WriteFile(out, []byte("package sentinel\n"))
+					}
+					sp := stdout
+					if sp == "read-only" {
+						sp = filepath.Join(dir, "stdout-read-only")
+						_ = work.WriteFile(sp, nil)
+					}
+					args := append([]string{"build", "-i", "a.yaml", "-o", "out.go"}, flags...)
+					var run cli.Run
+					if stdout == "read-only" {
+						run = cli.DoStdoutMode(w, "", nil, dir, out, sp, os.O_RDONLY, args...)
+					} else {
+						run = cli.DoStdoutMode(w, "", nil, dir, out, sp, os.O_WRONLY, args...)
+					}
+					c.Add("runs_with_unwritable_stdout", 1)
+					c.Eval(fmt.Sprintf("stdout|%s|%d|%v|%s", stdout, yi, flags, pre), true)
+					files := map[string]string{"input/a.yaml": y, "args.txt": strings.Join(args, " "), "stdout-is.txt": stdout, "stderr.txt": run.Res.Stderr}
+					sig := "stdout-unwritable:"
+					if run.Res.TimedOut {
+						c.Violate(sig+"hang", "the run did not end", files)
+						continue
+					}
+					// reference: the same run with a normal stdout in a twin directory
+					d2 := w.TempDir("c10s")
+					_ = work.WriteFile(filepath.Join(d2, "a.yaml"), []byte(y))
+					ref := cli.Do(w, "", nil, d2, filepath.Join(d2, "out.go"), args...)
+					want, _ := os.ReadFile(filepath.Join(d2, "out.go"))
+					got, _ := os.ReadFile(out)
+					if run.Res.Exit == 0 {
+						if ref.Res.Exit != 0 || string(got) != string(want) || len(got) == 0 {
+							c.Violate(sig+"exit-0-without-the-complete-output", fmt.Sprintf("flags %v, stdout %s: exit 0 but -o does not hold what a normal run writes (normal run: exit %d)", flags, stdout, ref.Res.Exit), files)
+						}
+					} else if run.Before != run.After {
+						c.Violate(sig+"failure-changed-output", fmt.Sprintf("flags %v, stdout %s, -o %s before: exit %d, but the -o path changed: before=%+v after=%+v", flags, stdout, pre, run.Res.Exit, run.Before, run.After), files)
+					}
+				}
+			}
+		}
+	}
 }
 
 // c10Strace enumerates system-call faults with strace (driver D4).
